@@ -78,7 +78,10 @@ class Ctx:
     def fresh_fun(self, base, *sorts):
         n = self.counters.get(base, 0)
         self.counters[base] = n + 1
-        return z3.Function(f"{base}!{n}", *sorts)
+        f = z3.Function(f"{base}!{n}", *sorts)
+        for fr in self.acc_frames:
+            fr.setdefault("fresh_funs", []).append(f)
+        return f
 
     # -- path condition
     def assume_global(self, term, label):
